@@ -25,7 +25,7 @@ BUDGET = {"quick": 12000, "thorough": 400000}
 @st.composite
 def _cases(draw):
     prof = dict(gen.PROFILES["i18n"], p_group_media=0.15, p_search=0.08, p_or_other=0.1, p_table_list=0.05, settings="some", p_group=0.2, p_repeat=0.15,
-                p_text_ref=0.15, p_plain_too=0.3, p_arg_default_language=0.3, p_choice_label_ref=0.1, p_extra_cols=0.2, p_prefixed_names=0.1)
+                p_text_ref=0.15, p_plain_too=0.3, p_arg_default_language=0.3, p_choice_label_ref=0.1, p_extra_cols=0.2, p_prefixed_names=0.1, p_osm=0.05)
     g = gen.G(draw, prof)
     form = gen.build_form(draw, prof, g=g)
     if g.p("_", 0.6):
@@ -247,6 +247,14 @@ def check(out, form, v):
                 got = kids["label"].text if "label" in kids else None
                 if (plain or None) != (got or None):
                     out.fail("C08.choice", "inline-label", f"list {lst['name']} choice {idx}: expected label {plain!r}, got {got!r}")
+    # osm tags are choice-like rows of the osm sheet: their translated labels mention languages too
+    osm_lists = {}
+    for r in form.get("osm") or []:
+        osm_lists.setdefault(r.get("list_name"), []).append({k: val for k, val in r.items() if k != "list_name"})
+    for rows in osm_lists.values():
+        for r in rows:
+            m, media = itext.element_model(r, dlang)
+            expected_langs |= itext.langs_of(m, media)
     out.checked("C08.languages")
     if set(actual_langs) != expected_langs:
         extra = sorted(set(actual_langs) - expected_langs)
